@@ -106,6 +106,23 @@ def main():
     if sys.argv[1] == "confirm":
         print(json.dumps(confirm(sys.argv[2], race="--race" in sys.argv), indent=1))
         return 0
+    if sys.argv[1] == "import":
+        # tools/seeded.py import <dir> <id> <origin text>: confirm, and when confirmed keep it as seeded/<id>/
+        src, sid, origin = sys.argv[2], sys.argv[3], sys.argv[4]
+        res = confirm(src, race="--race" in sys.argv)
+        print(sid, json.dumps(res))
+        if not res or not res.get("ok"):
+            return 1
+        dst = os.path.join(VERIF, "seeded", sid)
+        os.makedirs(dst, exist_ok=True)
+        for f in ("patch.diff", "demo_test.go", "notes.md"):
+            if os.path.exists(os.path.join(src, f)):
+                shutil.copy(os.path.join(src, f), os.path.join(dst, f))
+        notes = open(os.path.join(dst, "notes.md")).read() if os.path.exists(os.path.join(dst, "notes.md")) else ""
+        meta = {"id": sid, "property": sid.split("-")[0], "origin": origin, "needs_to_manifest": notes,
+                "confirmed_by_me": {"how": "tools/seeded.py confirm (scratch worktree under /tmp, removed afterwards): patch applies and compiles; repository suite passes with the patch; demo fails with the patch and passes without", "result": res}}
+        json.dump(meta, open(os.path.join(dst, "meta.json"), "w"), indent=1)
+        return 0
     if sys.argv[1] == "run":
         run(sys.argv[2], sys.argv[3:])
         return 0
